@@ -201,6 +201,15 @@ func runC08(c *Ctx) {
 					head := Point{l.Head, 0}
 					rx, rxpt := f.Resolve(st.X, head)
 					xk := f.KeyAt(st.X, head)
+					// the append-based representation: the collected objects are exactly the slice
+					if af := collectorAppendField(p, pkg); af != "" && fieldSel(info, rx, af) {
+						if st.Value != nil && objOfIdent(info, recv) != nil && objOfIdent(info, recv) == objOfIdent(info, st.Value) {
+							okLoop = true
+						}
+						if ix, ok := ast.Unparen(recv).(*ast.IndexExpr); ok && st.Key != nil && rawKey(ix.Index) == rawKey(st.Key) && fieldSel(info, ix.X, af) {
+							okLoop = true
+						}
+					}
 					if strings.HasSuffix(xk, ".writtenValuesCounter") {
 						if ix, ok := ast.Unparen(recv).(*ast.IndexExpr); ok && st.Key != nil && rawKey(ix.Index) == rawKey(st.Key) {
 							if bx, _ := f.Resolve(ix.X, d); fieldSel(info, bx, "writtenValues") {
@@ -267,6 +276,21 @@ func runC08(c *Ctx) {
 				return ok && s.Tok == token.INC && fieldSel(info, s.X, "writtenValuesCounter")
 			}},
 		}
+		if af := collectorAppendField(p, pkg); af != "" {
+			// the append-based representation records the object in one step
+			isAppend := func(n ast.Node) bool {
+				as, ok := n.(*ast.AssignStmt)
+				if !ok || len(as.Lhs) != 1 || len(as.Rhs) != 1 || !fieldSel(info, as.Lhs[0], af) {
+					return false
+				}
+				c, ok := ast.Unparen(as.Rhs[0]).(*ast.CallExpr)
+				return ok && rawKey(c.Fun) == "append"
+			}
+			steps = append(steps[:3], struct {
+				name string
+				pred func(ast.Node) bool
+			}{"recorded with append", isAppend})
+		}
 		for _, st := range steps {
 			if w, found := f.reach(f.entry(), &searchOpts{AvoidNode: st.pred}, func(pt Point, atExit bool) bool { return atExit }); found {
 				r.Fail("collector/add-steps", key+" "+st.name, f.P.posStr(f.Body.Pos()), "a path through Add skips "+st.name, w...)
@@ -286,8 +310,11 @@ func runC08(c *Ctx) {
 		}
 		// slot store precedes the counter increment
 		stores := f.Find(steps[3].pred)
-		incs := f.Find(steps[4].pred)
-		if len(stores) == 1 && len(incs) == 1 {
+		var incs []Point
+		if len(steps) > 4 {
+			incs = f.Find(steps[4].pred)
+		}
+		if len(steps) > 4 && len(stores) == 1 && len(incs) == 1 {
 			if _, found := f.PathFromEntryAvoiding(incs[0], steps[3].pred, nil); found {
 				r.Fail("collector/add-steps", key+" store-before-increment", f.PosOf(incs[0]), "the counter is advanced before the object is stored in its slot")
 			} else {
@@ -307,10 +334,8 @@ func runC08(c *Ctx) {
 		r.Unresolved("stop/clear-then-wait", "kvstore.BatchedWriter.StopBatchWriter", "method not found")
 	} else {
 		key := "kvstore.BatchedWriter.StopBatchWriter"
-		clears := f.Find(func(n ast.Node) bool {
-			c := atomicCall(n, "running", "Store")
-			return c != nil && exprKey(c.Args[0]) == "false"
-		})
+		// the flag is cleared by Store(false), or on the success edge of CompareAndSwap(true, false)
+		clears := f.flagSetPoints("running", "false")
 		isWait := func(n ast.Node) bool {
 			c, ok := n.(*ast.CallExpr)
 			if !ok {
@@ -321,7 +346,7 @@ func runC08(c *Ctx) {
 		}
 		if len(clears) == 0 {
 			r.Fail("stop/clear-then-wait", key, f.P.posStr(f.Body.Pos()), "Stop never clears running")
-		} else if w, found := f.PathToExitAvoiding(clears[0], isWait); found {
+		} else if w, found := f.reach(clears[0], &searchOpts{AvoidNode: isWait}, func(_ Point, atExit bool) bool { return atExit }); found {
 			r.Fail("stop/clear-then-wait", key, f.PosOf(clears[0]), "after clearing running a path returns without waiting for the writer", w...)
 		} else {
 			r.Pass("stop/clear-then-wait", key, f.PosOf(clears[0]), "running.Store(false) is followed by writeWg.Wait() on every path")
@@ -589,5 +614,37 @@ func keysOf(m map[string]bool) []string {
 		out = append(out, k)
 	}
 	sortStrings(out)
+	return out
+}
+
+// collectorAppendField: the BatchCollector field that Add grows with append(F, object) - the
+// append-based representation of the collected objects ("" when Add uses a pre-sized slice and a
+// counter).
+func collectorAppendField(p *Prog, pkg string) string {
+	fd := p.FuncDecl(pkg, "BatchCollector", "Add")
+	if fd == nil || fd.Body == nil {
+		return ""
+	}
+	info := p.Pkg(pkg).TypesInfo
+	params := paramObjs(info, fd)
+	out := ""
+	ast.Inspect(fd.Body, func(n ast.Node) bool {
+		as, ok := n.(*ast.AssignStmt)
+		if !ok || len(as.Lhs) != 1 || len(as.Rhs) != 1 {
+			return true
+		}
+		lse, ok := ast.Unparen(as.Lhs[0]).(*ast.SelectorExpr)
+		if !ok || info.Selections[lse] == nil || info.Selections[lse].Kind() != types.FieldVal {
+			return true
+		}
+		c, ok := ast.Unparen(as.Rhs[0]).(*ast.CallExpr)
+		if !ok || rawKey(c.Fun) != "append" || len(c.Args) != 2 || exprKey(c.Args[0]) != exprKey(lse) {
+			return true
+		}
+		if len(params) == 1 && objOfIdent(info, c.Args[1]) == params[0] {
+			out = lse.Sel.Name
+		}
+		return true
+	})
 	return out
 }
